@@ -6,6 +6,7 @@ import SfntV.Model.TotalCffIndex
 import SfntV.Proofs.TotalName
 import SfntV.Proofs.TotalHeader
 import SfntV.Model.CffIndex
+import SfntV.Model.CffRead
 
 namespace SfntV.Total.NameCff
 open SfntV SfntV.Total
@@ -438,5 +439,46 @@ theorem cffReadIndex_noPanic (b : Bytes) (pos : Nat) : (SfntV.Cff.readIndex b po
   | err e => exact True.intro
   | panic s => rw [h] at this; exact this.elim
 
+
+/-! ## `readIndexAt` -/
+
+/-- `readIndexAt` returns a value or an error for every input and every (signed) position. -/
+theorem readIndexAt_noPanic (b : Bytes) (pos : Int) : (readIndexAt b pos).noPanic := by
+  unfold readIndexAt
+  split
+  · exact True.intro
+  · exact readIndex_noPanic b _
+
+/-- same constants as `readIndex_cost` (the guard and the seek cost nothing) -/
+theorem readIndexAt_cost (b : Bytes) (pos : Int) (r : List Bytes × Nat) (c : Cost)
+    (h : readIndexAt b pos = .ok (r, c)) :
+    c.steps ≤ 2 * b.length + b.length / 1024 + 3 ∧ c.alloc ≤ 3 * b.length := by
+  unfold readIndexAt at h
+  split at h
+  · cases h
+  · exact readIndex_cost b _ r c h
+
+/-- forget the cost and the end position (C13's `readIndexAt` returns the items only) -/
+def eraseAt : Outcome ((List Bytes × Nat) × Cost) → Outcome (List Bytes)
+  | .ok ((l, _), _) => .ok l
+  | .err e => .err e
+  | .panic s => .panic s
+
+/-- agreement with the value-level model of C13 (`SfntV.Cff.readIndexAt`, Model/CffRead.lean) for
+every input and every signed position -/
+theorem readIndexAt_erase (b : Bytes) (pos : Int) :
+    eraseAt (readIndexAt b pos) = SfntV.Cff.readIndexAt b pos := by
+  unfold readIndexAt SfntV.Cff.readIndexAt
+  split
+  · rfl
+  · rw [← readIndex_erase]
+    cases readIndex b pos.toNat with
+    | ok p => rfl
+    | err e => rfl
+    | panic s => rfl
+
+example : readIndexAt [0,0,0,0, 0,1, 1, 1,2, 7] 4 = .ok (([[7]], 10), ⟨6, 4⟩) := by decide +kernel
+example : readIndexAt [0,0,0,0, 0,1, 1, 1,2, 7] 3 = .err "other" := by decide +kernel
+example : readIndexAt [0,0,0,0, 0,1, 1, 1,2, 7] (-1) = .err "other" := by decide +kernel
 
 end SfntV.Total.NameCff
